@@ -11,18 +11,22 @@ import SkNet.Model.Svg
 
 namespace SkNet.Svg
 
-/-- the string can stand between double quotes as an attribute value -/
-def SafeStr (s : PyStr) : Prop := s.all (attrCharOk 34) = true
+/-- the string can stand between double quotes as an attribute value: XML characters other than `<`, `"`, and `&`
+    only as the start of a reference -/
+def SafeStr (s : PyStr) : Prop := ValOk 34 s
 
-instance (s : PyStr) : Decidable (SafeStr s) := by unfold SafeStr; infer_instance
+theorem safeStr_iff (s : PyStr) : SafeStr s ↔ attrValOk 34 (s.length + 1) s = true :=
+  ⟨fun h => h.check _ (by omega), ValOk.of_check _ _⟩
 
-theorem SafeStr.nil : SafeStr [] := rfl
+instance (s : PyStr) : Decidable (SafeStr s) := decidable_of_iff _ (safeStr_iff s).symm
 
-theorem SafeStr.append {a b : PyStr} (ha : SafeStr a) (hb : SafeStr b) : SafeStr (a ++ b) := by
-  unfold SafeStr at *; simp [List.all_append, ha, hb]
+theorem SafeStr.nil : SafeStr [] := ValOk.nil
+
+theorem SafeStr.append {a b : PyStr} (ha : SafeStr a) (hb : SafeStr b) : SafeStr (a ++ b) := ValOk.append ha hb
 
 theorem SafeStr.cons {c : Nat} {b : PyStr} (hc : attrCharOk 34 c = true) (hb : SafeStr b) : SafeStr (c :: b) := by
-  unfold SafeStr at *; simp [hc, hb]
+  simp only [attrCharOk, Bool.and_eq_true, bne_iff_ne, ne_eq] at hc
+  exact ValOk.chr c b hc.1.1.1 hc.1.1.2 hc.1.2 hc.2 hb
 
 /-- every string of the list is attribute-safe -/
 def AllSafe (l : List PyStr) : Prop := ∀ c ∈ l, SafeStr c
@@ -93,12 +97,12 @@ theorem Inner.elem {n : PyStr} {as : List Attr} {t : PyStr} {body : List Piece} 
     simp [balanced]
 
 theorem attrLexOk_att {k v : PyStr} (hk : nameOk k = true) (hv : SafeStr v) : attrLexOk (att k v) = true := by
-  unfold SafeStr at hv
-  simp [attrLexOk, att, hk, hv, isWs]
+  have := (safeStr_iff v).mp hv
+  simp [attrLexOk, att, hk, this, isWs]
 
 theorem attrLexOk_att2 {k v : PyStr} (hk : nameOk k = true) (hv : SafeStr v) : attrLexOk (att2 k v) = true := by
-  unfold SafeStr at hv
-  simp [attrLexOk, att2, hk, hv, isWs]
+  have := (safeStr_iff v).mp hv
+  simp [attrLexOk, att2, hk, this, isWs]
 
 /-! ### a whole document -/
 
